@@ -12,6 +12,18 @@ TRACKING = ["utm_source=x", "utm_medium=social", "fbclid=IwAR0", "sessionid=abc"
 TWIN = {"a": "%61", "é": "%c3%a9", "%C3%A9": "é", "B": "%42", "~": "%7e", "%7E": "~"}
 
 
+def respell(text, raw, esc):
+    """text with the first occurrence of `raw` that is not part of an escape replaced by `esc` (None when there is none): a hex digit of '%6B' is
+    no letter 'B' (compositions of transformations corrupted escapes before this test was added)"""
+    i = text.find(raw)
+    while i >= 0:
+        inside = (raw[0] != "%") and (text[max(0, i - 1):i] == "%" or (text[max(0, i - 2):i - 1] == "%" and i >= 2))
+        if not inside:
+            return text[:i] + esc + text[i + len(raw):]
+        i = text.find(raw, i + 1)
+    return None
+
+
 class Base(object):
     def __init__(self, host, path, items, frag=None):
         self.scheme = "http://"
@@ -79,15 +91,21 @@ def transforms(b, rnd, tier):
         yield "amp-entity-separator-escaped", b.copy(sep="&amp%3B")
     for i, it in enumerate(b.items):
         for raw, esc in TWIN.items():
-            if raw in it:
-                yield "escape-spelling-query", b.copy(items=b.items[:i] + [it.replace(raw, esc, 1)] + b.items[i + 1:])
+            r = respell(it, raw, esc)
+            if r is not None:
+                yield "escape-spelling-query", b.copy(items=b.items[:i] + [r] + b.items[i + 1:])
         if "%" in it and it.upper() != it.lower():
             low = "".join(it)
             import re as _re
             yield "hex-case-query", b.copy(items=b.items[:i] + [_re.sub(r"%[0-9A-Fa-f]{2}", lambda m: m.group(0).lower() if m.group(0) != m.group(0).lower() else m.group(0).upper(), it)] + b.items[i + 1:])
+    for i, it in enumerate(b.items):
+        if it[:1].isalpha():
+            # the first letter of the KEY written as an escape ('%75rl' is 'url', '%75tm_source' is 'utm_source')
+            yield "escape-spelling-key", b.copy(items=b.items[:i] + ["%%%02X" % ord(it[0]) + it[1:]] + b.items[i + 1:])
     for raw, esc in TWIN.items():
-        if raw in b.path:
-            yield "escape-spelling-path", b.copy(path=b.path.replace(raw, esc, 1))
+        r = respell(b.path, raw, esc)
+        if r is not None:
+            yield "escape-spelling-path", b.copy(path=r)
     yield "surrounding-whitespace", b.copy(wrap=("  \t", "\n "))
     yield "control-characters", b.copy(wrap=("\x00", "\x7f"))
     yield "control-characters", b.copy(wrap=("\x85\x9f", "\x80"))   # C1 controls: the standard parser does not strip those itself
@@ -174,9 +192,16 @@ def shard(job):
                                       {"normalize(url)": r0[1], "normalize(variant)": repr(r)}, "equal")
             # two transformations composed
             ts = list(transforms(b, rnd, tier))
-            for _ in range(6 if tier == "quick" else 40):
-                n1, b1 = rnd.choice(ts)
-                n2, b2 = rnd.choice(list(transforms(b1, rnd, "quick")))
+            if tier == "quick":
+                pairs = []
+                for _ in range(6):
+                    n1, b1 = rnd.choice(ts)
+                    n2, b2 = rnd.choice(list(transforms(b1, rnd, "quick")))
+                    pairs.append((n1, n2, b2))
+            else:
+                # thorough: EVERY ordered pair of variations (the second one drawn from the variations of the already varied URL)
+                pairs = [(n1, n2, b2) for n1, b1 in transforms(b, rnd, "quick") for n2, b2 in transforms(b1, rnd, "quick")]
+            for n1, n2, b2 in pairs:
                 if family(n1) == family(n2):
                     continue    # 'a trailing index page', 'an irrelevant subdomain': one variation of each kind
                 tu = b2.build()
@@ -228,7 +253,7 @@ def main():
     col.rule = ("base URLs (3 hosts x 6 paths x 7 query shapes + routing fragments) x every transformation of the documented-irrelevant family alone (scheme / absent "
                 "scheme, userinfo, www / www2 / m / mobile / amp. subdomains and amp- prefix, explicit default port, host case, trailing slash, index / default page, "
                 "non-routing fragment, tracking / session / AMP items at every position, every permutation of <= 4 items, '&amp;' separators, escape spelling and hex "
-                "case, surrounding whitespace, control characters) and random pairwise compositions; repeated with quoted=True and platform_aware=True; plus "
+                "case, surrounding whitespace, control characters) and pairwise compositions (quick: 6 random ones per base, thorough: every ordered pair); repeated with quoted=True and platform_aware=True; plus "
                 "normalize_url(u) == normalize_url(infer_redirection(u), infer_redirection=False) on redirect-carrying URLs. distinct_nontrivial = (transformation, base) pairs")
     history.run(col, "C04", a.tier == "quick")
     col.dump(a.out)
